@@ -160,12 +160,9 @@ def make_pool(plan, stats):
             return chunks, completion, results
 
         def _iter(self, order, results):
-            for ci in order:
-                r = results[ci]
-                if isinstance(r, _Failure):
-                    raise r.exc
-                for v in r:
-                    yield v
+            # a class-based iterator, like multiprocessing.pool.IMapIterator (NOT a generator: an exception
+            # raised by a task - StopIteration included - comes out of __next__ exactly as the real pool raises it)
+            return _ResultIterator(list(order), results)
 
         def imap_unordered(self, func, iterable, chunksize=1):
             chunks, completion, results = self._simulate(func, iterable, chunksize)
@@ -228,6 +225,29 @@ def make_pool(plan, stats):
             raise HarnessError(f"SimPool: unsupported Pool API used by the code under test: {name}")
 
     return SimPool
+
+
+class _ResultIterator:
+    def __init__(self, order, results):
+        self._order, self._results = order, results
+        self._pos = 0
+        self._buf = []
+
+    def __iter__(self):
+        return self
+
+    def __next__(self):
+        while not self._buf:
+            if self._pos >= len(self._order):
+                raise StopIteration
+            r = self._results[self._order[self._pos]]
+            self._pos += 1
+            if isinstance(r, _Failure):
+                raise r.exc
+            self._buf = list(r)
+        return self._buf.pop(0)
+
+    next = __next__
 
 
 class _Apply:
